@@ -34,6 +34,7 @@ MODEL_MODE = 0 if os.environ.get("VERIF_C09_PINNED_MODEL") else 1
 KVALS = [0, 1, 2]
 JVALS = ["a", "b"]
 SORT_KEYS = ["none", "part", "rows"]
+SCHEMA_ID = 1         # abstract id of the schema of the history's frames (x int64, y float64); any other observed schema is 2
 MAX_FAILING = 25      # failing histories processed per run (the witnesses come first); the rest is only counted
 
 
@@ -44,6 +45,29 @@ MAX_FAILING = 25      # failing histories processed per run (the witnesses come 
 # (k=1 / k=10 / k=11, j=a / j=ab / j=abc): directory names of different partitions then share a prefix
 KPOOLS = [[0, 1, 2], [1, 10, 11, 2, 21], [1, 10]]
 JPOOLS = [["a", "b"], ["a", "ab", "abc", "b"], ["a", "ab"]]
+# every KIND of value the writer can put into a directory name (util.path_string): overwrite matches partitions on these texts.
+# (kind, pool); timestamps are kept as ISO texts in the history and turned into pd.Timestamp when the frame is built
+KIND_POOLS = {
+    "k": [("int", p) for p in KPOOLS] + [("float", [1.0, 2.0, 2.5, -0.0, 1e16]), ("float", [2.0, 20.0]), ("bool", [True, False]),
+                                         ("ts", ["2020-01-01T00:00:00", "2020-01-02T03:04:05", "2020-01-01T00:00:01"]),
+                                         ("bigint", [2 ** 53 + 1, 2 ** 53 + 3, 7])],
+    "j": [("str", p) for p in JPOOLS] + [("str", ["a b", "\u00e9", "x"]), ("float", [1.0, 10.0, 2.5]),
+                                         ("ts", ["2021-03-04T00:00:00", "2021-03-04T05:06:07"])],
+}
+DEFAULT_PTYPES = {"k": "int", "j": "str"}
+
+
+def dir_text(kind, v):
+    """the text the writer puts into a directory name for a partition value: the library's OWN util.path_string on the value as
+    pandas' groupby yields it (glue; a change of the formatting alone is not this property's business, a writer/overwrite
+    disagreement about it is - the model then predicts a replacement that does not happen)"""
+    import numpy as np
+    import pandas as pd
+    from fastparquet.util import path_string
+    if kind == "ts":
+        return path_string(pd.Timestamp(v))
+    cast = {"float": np.float64, "bool": np.bool_, "int": np.int64, "bigint": np.int64}.get(kind)
+    return path_string(cast(v) if cast else v)
 
 
 def gen_frame(rng, pcols, n, next_id, kvals=None, jvals=None):
@@ -78,8 +102,8 @@ def gen_history(rng, hid, maxlen=6):
         pcols = ["j", "k"]
     nid = 0
     n = rng.choice([1, 2, 4, 6, 8])
-    kpool = rng.choice(KPOOLS)
-    jpool = rng.choice(JPOOLS)
+    kkind, kpool = rng.choice(KIND_POOLS["k"][:3] * 2 + KIND_POOLS["k"][3:])
+    jkind, jpool = rng.choice(KIND_POOLS["j"][:3] * 2 + KIND_POOLS["j"][3:])
     ops = [{"op": "write", "frame": gen_frame(rng, pcols, n, nid, kpool, jpool), "offsets": None}]
     ops[0]["offsets"] = offsets(rng, n)
     nid += n
@@ -93,11 +117,31 @@ def gen_history(rng, hid, maxlen=6):
         n = rng.choice([1, 2, 3, 5, 6])
         o = {"op": kind, "frame": gen_frame(rng, pcols, n, nid, sub_pool(rng, kpool), sub_pool(rng, jpool)), "offsets": offsets(rng, n)}
         nid += n
+        if rng.random() < 0.2:
+            o["y_int"] = True      # the new frame's y column is int64: the part files must still carry the summary's schema (y: double)
         if kind == "writergs":
             o["sort_key"] = rng.choice(SORT_KEYS)
             o["sort_pnames"] = rng.random() < 0.5
         ops.append(o)
-    return {"id": hid, "pcols": pcols, "ops": ops}
+    h = {"id": hid, "pcols": pcols, "ptypes": {"k": kkind, "j": jkind}, "ops": ops}
+    if rng.random() < 0.15:
+        h["user_open"] = True      # every call gets a plain user function as open_with: the ParquetFile then has no .fs
+    return h
+
+
+def kind_witnesses():
+    """one value kind each: overwrite one partition of a dataset partitioned on a float / bool / timestamp / big-int column"""
+    out = []
+    for n, (kind, vals) in enumerate([("float", [1.0, 2.0, 2.5, 2.0]), ("float", [-0.0, 1e16, 2.5, 1e16]), ("bool", [True, False, True]),
+                                      ("ts", ["2020-01-01T00:00:00", "2020-01-02T03:04:05", "2020-01-01T00:00:00"]),
+                                      ("bigint", [2 ** 53 + 1, 2 ** 53 + 3, 2 ** 53 + 1])]):
+        fr0 = [{"x": i, "y": 0.5, "k": v, "j": "a"} for i, v in enumerate(vals)]
+        fr1 = [{"x": 100, "y": 0.5, "k": vals[1], "j": "a"}]
+        fr2 = [{"x": 101, "y": 0.5, "k": vals[0], "j": "a"}, {"x": 102, "y": 0.5, "k": vals[0], "j": "a"}]
+        out.append({"id": 900021 + n, "pcols": ["k"], "ptypes": {"k": kind, "j": "str"}, "ops": [
+            {"op": "write", "frame": fr0, "offsets": [0, 2]}, {"op": "overwrite", "frame": fr1, "offsets": [0]},
+            {"op": "overwrite", "frame": fr2, "offsets": [0, 1]}]})
+    return out
 
 
 def design_witness():
@@ -129,20 +173,32 @@ def prefix_witnesses():
     ]
 
 
+def user_open_witness():
+    h = design_witness()
+    h["id"] = 900031
+    h["user_open"] = True
+    return h
+
+
 def emptied_history(pcols, hid):
     def fr(ks, start):
         return [{"x": start + i, "y": 0.5, "k": k, "j": "a"} for i, k in enumerate(ks)]
-    return {"id": hid, "pcols": pcols, "confirmation": "emptied", "ops": [
+    return {"id": hid, "pcols": pcols, "ops": [
         {"op": "write", "frame": fr([0, 1, 0], 0), "offsets": [0, 2]},
         {"op": "remove", "sel_spec": [], "all": True, "sort_pnames": False},
-        {"op": "append", "frame": fr([1, 0], 3), "offsets": [0]}]}
+        {"op": "append", "frame": fr([1, 0], 3), "offsets": [0]},
+        {"op": "append", "frame": fr([0, 1, 1], 5), "offsets": [0, 2]}] + (
+        [{"op": "remove", "sel_spec": [], "all": True, "sort_pnames": True},
+         {"op": "overwrite", "frame": fr([1, 1], 8), "offsets": [0]},
+         {"op": "overwrite", "frame": fr([1, 0], 10), "offsets": [0]}] if pcols else [])}
 
 
 # ---------------------------------------------------------------------------------------------
 # glue: new data cut the way write_multi cuts it
 # ---------------------------------------------------------------------------------------------
-def cut(frame, offs, pcols):
+def cut(frame, offs, pcols, ptypes=None):
     """[[(dir, [ids])...] per row group]; directories in the order of pandas' sorted groupby keys."""
+    pt = ptypes or DEFAULT_PTYPES
     n = len(frame)
     out = []
     for i, start in enumerate(offs):
@@ -152,7 +208,7 @@ def cut(frame, offs, pcols):
             keys = sorted(set(tuple(r[c] for c in pcols) for r in sub))
             g = []
             for key in keys:
-                d = "/".join("%s=%s" % (c, v) for c, v in zip(pcols, key))
+                d = "/".join("%s=%s" % (c, dir_text(pt[c], v)) for c, v in zip(pcols, key))
                 g.append([d, [r["x"] for r in sub if tuple(r[c] for c in pcols) == key]])
             out.append(g)
         else:
@@ -171,23 +227,36 @@ def model_ops(h, resolved):
         if o["op"] == "remove":
             out.append(["remove", list(sel if sel is not None else []), 1 if o["sort_pnames"] else 0])
             continue
-        rgs = sx_rgs(cut(o["frame"], o["offsets"], h["pcols"]))
+        rgs = sx_rgs(cut(o["frame"], o["offsets"], h["pcols"], h.get("ptypes")))
         if o["op"] == "writergs":
             out.append(["writergs", rgs, o["sort_key"], 1 if o["sort_pnames"] else 0])
         else:
-            out.append([o["op"], rgs])
+            out.append(["write", SCHEMA_ID, rgs] if o["op"] == "write" else [o["op"], rgs])
     return out
 
 
 # ---------------------------------------------------------------------------------------------
 # the real code (worker process)
 # ---------------------------------------------------------------------------------------------
-def to_df(frame, pcols):
+def to_df(frame, pcols, ptypes=None, y_int=False):
     import numpy as np
     import pandas as pd
-    d = {"x": np.array([r["x"] for r in frame], dtype="int64"), "y": np.array([r["y"] for r in frame], dtype="float64")}
+    pt = ptypes or DEFAULT_PTYPES
+    d = {"x": np.array([r["x"] for r in frame], dtype="int64"),
+         "y": np.array([int(r["y"] * 2) for r in frame], dtype="int64") if y_int else np.array([r["y"] for r in frame], dtype="float64")}
     for c in pcols:
-        d[c] = np.array([r[c] for r in frame], dtype="int64") if c == "k" else pd.Series([r[c] for r in frame], dtype=object)
+        vals = [r[c] for r in frame]
+        kind = pt[c]
+        if kind in ("int", "bigint"):
+            d[c] = np.array(vals, dtype="int64")
+        elif kind == "float":
+            d[c] = np.array(vals, dtype="float64")
+        elif kind == "bool":
+            d[c] = np.array(vals, dtype="bool")
+        elif kind == "ts":
+            d[c] = pd.Series([pd.Timestamp(v) for v in vals])
+        else:
+            d[c] = pd.Series(vals, dtype=object)
     return pd.DataFrame(d)
 
 
@@ -198,6 +267,11 @@ def sort_key_fn(name):
     if name == "part":
         return lambda rg: partitions(rg) or ""
     return lambda rg: rg.num_rows
+
+
+def plain_open(path, mode="rb"):
+    """a user-supplied open_with that is not a method of a file system object"""
+    return open(path, mode)
 
 
 def observe(root):
@@ -253,26 +327,27 @@ def run_history(arg):
     try:
         from fastparquet import ParquetFile, write
         pcols = h["pcols"]
+        okw = {"open_with": plain_open} if h.get("user_open") else {}
         for o in h["ops"]:
             raised = None
             sel = None
             try:
                 if o["op"] == "write":
-                    write(root, to_df(o["frame"], pcols), file_scheme="hive", partition_on=list(pcols), row_group_offsets=list(o["offsets"]))
+                    write(root, to_df(o["frame"], pcols, h.get("ptypes"), o.get("y_int", False)), file_scheme="hive", partition_on=list(pcols), row_group_offsets=list(o["offsets"]), **okw)
                 elif o["op"] == "append":
-                    write(root, to_df(o["frame"], pcols), file_scheme="hive", partition_on=list(pcols), row_group_offsets=list(o["offsets"]), append=True)
+                    write(root, to_df(o["frame"], pcols, h.get("ptypes"), o.get("y_int", False)), file_scheme="hive", partition_on=list(pcols), row_group_offsets=list(o["offsets"]), append=True, **okw)
                 elif o["op"] == "overwrite":
-                    write(root, to_df(o["frame"], pcols), file_scheme="hive", partition_on=list(pcols), row_group_offsets=list(o["offsets"]),
-                          append="overwrite")
+                    write(root, to_df(o["frame"], pcols, h.get("ptypes"), o.get("y_int", False)), file_scheme="hive", partition_on=list(pcols), row_group_offsets=list(o["offsets"]),
+                          append="overwrite", **okw)
                 elif o["op"] == "remove":
-                    pf = ParquetFile(root)
+                    pf = ParquetFile(root, **okw)
                     n = len(pf.row_groups)
                     sel = list(range(n)) if o.get("all") else (sorted(set(i % n for i in o["sel_spec"])) if n else [])
-                    pf.remove_row_groups([pf.row_groups[i] for i in sel], sort_pnames=o["sort_pnames"])
+                    pf.remove_row_groups([pf.row_groups[i] for i in sel], sort_pnames=o["sort_pnames"], **okw)
                 elif o["op"] == "writergs":
-                    pf = ParquetFile(root)
-                    pf.write_row_groups(to_df(o["frame"], pcols), list(o["offsets"]), sort_key=sort_key_fn(o["sort_key"]),
-                                        sort_pnames=o["sort_pnames"])
+                    pf = ParquetFile(root, **okw)
+                    pf.write_row_groups(to_df(o["frame"], pcols, h.get("ptypes"), o.get("y_int", False)), list(o["offsets"]), sort_key=sort_key_fn(o["sort_key"]),
+                                        sort_pnames=o["sort_pnames"], **okw)
             except BaseException as e:           # noqa
                 raised = "%s: %s" % (type(e).__name__, str(e)[:160].replace("\n", " "))
             out["resolved"].append(sel)
@@ -350,9 +425,9 @@ def run(ctx):
                 "remove_row_groups(subset, sort_pnames), write_row_groups(sort_key in none/partition/num_rows, sort_pnames)} with generated frames; a fresh "
                 "ParquetFile is opened for every step and for every observation; a case is (history, step); the initial write of a history is the only trivial one; "
                 "partition values are drawn per history from pools of which two hold prefix-related texts (k in 1/10/11/2/21, j in a/ab/abc/b) and every new frame "
-                "from the whole pool, one value only, or a random subset; plus the DESIGN witness history, 3 prefix-value witness histories and 2 confirmation "
-                "histories for the open finding (dataset emptied, then append)")
-    hs = [design_witness(), emptied_history(["k"], 900002), emptied_history([], 900003)] + prefix_witnesses() + [gen_history(rng, i) for i in range(nh)]
+                "from the whole pool, one value only, or a random subset; plus the DESIGN witness history, 3 prefix-value and 5 value-kind witness histories and 2 "
+                "histories that empty the dataset and append again (finding fixed by 05c32a7)")
+    hs = [design_witness(), emptied_history(["k"], 900002), emptied_history([], 900003)] + prefix_witnesses() + kind_witnesses() + [user_open_witness()] + [gen_history(rng, i) for i in range(nh)]
     cdir = os.path.join(C.VERIF, "corpus", "C09")
     if os.path.isdir(cdir):
         for i, f in enumerate(sorted(os.listdir(cdir))):
@@ -365,14 +440,14 @@ def run(ctx):
     # report it as a failing input - the dataset cannot be read back at all
     crashed = [(h, r) for h, r in zip(hs, results) if isinstance(r, dict) and "__crashed__" in r]
     for h, r in crashed[:5]:
-        pre = [{"id": h["id"] * 10 + n, "pcols": h["pcols"], "ops": h["ops"][:n]} for n in range(1, len(h["ops"]) + 1)]
+        pre = [{"id": h["id"] * 10 + n, "pcols": h["pcols"], "ptypes": h.get("ptypes"), "user_open": h.get("user_open"), "ops": h["ops"][:n]} for n in range(1, len(h["ops"]) + 1)]
         rr = C.pmap(run_history, [(x, ctx.scratch) for x in pre], nproc=4, job_timeout=30)
         bad = [x for x, y in zip(pre, rr) if isinstance(y, dict) and "__crashed__" in y]
         hh = bad[0] if bad else h
         o = hh["ops"][-1]
         ctx.fail({"component": "dataset-edit", "symptom": "process-crashed-or-hung", "op": o["op"], "partitioned": bool(h["pcols"]),
                   "emptied_before": False, "sort_pnames": bool(o.get("sort_pnames") or o["op"] == "overwrite")},
-                 {"history": {"id": h["id"], "pcols": h["pcols"], "ops": hh["ops"]}, "step": len(hh["ops"]) - 1, "observed": r["__crashed__"]},
+                 {"history": {"id": h["id"], "pcols": h["pcols"], "ptypes": h.get("ptypes"), "user_open": h.get("user_open"), "ops": hh["ops"]}, "step": len(hh["ops"]) - 1, "observed": r["__crashed__"]},
                  "running / observing this history kills or hangs the process: %s" % r["__crashed__"])
     if len(crashed) > 5:
         ctx.notes.append("%d histories crashed the worker process; 5 reported" % len(crashed))
@@ -399,13 +474,20 @@ def run(ctx):
             continue
         ctx.count("partition_columns", len(h["pcols"]))
         ctx.count("history_length", len(h["ops"]))
+        ctx.count("open_with", "user function" if h.get("user_open") else "default")
+        ctx.count("partition_value_kinds", "/".join((h.get("ptypes") or DEFAULT_PTYPES)[c] for c in h["pcols"]) or "-")
         if not isinstance(mo, list) or len(mo) != len(h["ops"]):
             ctx.correspondence("edit_hist answers one record per step", {"history": h["id"]}, len(h["ops"]), mo)
             continue
+        diverged = False       # names / summary left the model but the property still held: later steps are judged by the oracle only
         for si, (o, obs, m) in enumerate(zip(h["ops"], res["steps"], mo)):
-            acc, mdir, msum, mnum, minv, mread, mabs, mspec = m
+            acc, mdir, msum, mnum, minv, mread, mabs, mspec, msch, mpart = m
+            ref_schema = res["steps"][0].get("schema")
+
+            def sid(x):
+                return SCHEMA_ID if (x is not None and x == ref_schema) else 2
             short = {"history": h["id"], "step": si, "op": o["op"], "pcols": h["pcols"], "sort_pnames": o.get("sort_pnames"), "sort_key": o.get("sort_key")}
-            case = {"history": {"id": h["id"], "pcols": h["pcols"], "ops": h["ops"][:si + 1]}, "step": si}
+            case = {"history": {"id": h["id"], "pcols": h["pcols"], "ptypes": h.get("ptypes"), "user_open": h.get("user_open"), "ops": h["ops"][:si + 1]}, "step": si}
             ctx.case({"h": h["ops"][:si + 1], "p": h["pcols"]}, trivial=si == 0)
             ctx.count("op", o["op"] + ("/sort_pnames" if o.get("sort_pnames") else ""))
             ctx.count("row_groups_after", min(len(msum), 12))
@@ -422,6 +504,11 @@ def run(ctx):
                           "emptied_before": bool(emptied), "sort_pnames": bool(o.get("sort_pnames") or o["op"] == "overwrite")},
                          {**case, "observed": {"raised": obs["raised"], "summary": obs.get("summary"), "files": {k: v.get("ids") for k, v in obs["files"].items()},
                                                "num_rows": obs.get("num_rows"), "read": obs.get("read")}}, text)
+            if diverged:
+                if problems:
+                    nfailing += 1 if newfail else 0
+                    break
+                continue
             # the model's own claims
             if not minv:
                 ctx.correspondence("check_inv(model state) = true after every step", short, 1, minv)
@@ -434,6 +521,12 @@ def run(ctx):
                 break
             rsum = [[p, ids] for p, _, ids in obs["summary"]]
             rdir = sorted([p, f["ids"]] for p, f in obs["files"].items())
+            mfiles = files_sx(mdir)                     # model content of a file = schema id :: row ids
+            ctx.correspondence("schema ids (summary, every data file): model = real", short,
+                               [msch, sorted([p, c[0] if c else None] for p, c in mfiles)],
+                               [sid(obs.get("schema")),
+                                sorted([p, sid(f.get("schema"))] for p, f in obs["files"].items())])
+            mdir = [[p.encode(), c[1:]] for p, c in mfiles]
             ok &= ctx.correspondence("summary row-group list (path, rows read through the summary): model = real", short, files_sx(msum), rsum)
             ok &= ctx.correspondence("directory listing (path -> rows held): model = real", short, sorted(files_sx(mdir)), rdir)
             ctx.correspondence("summary up to file names (partition directory, rows): model = real", short,
@@ -443,9 +536,12 @@ def run(ctx):
             ctx.correspondence("num_rows field: model = real", short, mnum, obs["num_rows"])
             if spec is not None and acc:
                 ctx.correspondence("abs(model state) = spec_step (plain model) on this history", short, files_sx(mabs), spec)
-            if problems or not ok:
-                nfailing += 1 if (newfail or not ok) else 0       # reproductions of an open finding do not use up the cap
-                break            # the real state has left the model: later steps of this history say nothing new
+            if problems:
+                nfailing += 1 if newfail else 0                   # reproductions of an open finding do not use up the cap
+                break            # the real state has left the plain model: later steps of this history say nothing new
+            if not ok:
+                nfailing += 1
+                diverged = True
 
 
 def replay(rep):
